@@ -16,12 +16,15 @@ PALPHA = {97, 65, 44, 59, 58, 61, 39, 94, 32, 92, 37, 50, 67}
 def run(ctx: Ctx):
     ev, meta = [], []
     fams = [("scalar", dict(PLen=3 if ctx.quick else 4, LLen=1)),
-            ("list", dict(PLen=1, LLen=1 if ctx.quick else 2)),
+            ("list", dict(PLen=1, LLen=1)),
             ("two", dict(PLen=1, LLen=1))]
+    if not ctx.quick:
+        # lists of values up to length 2 over a reduced alphabet (the full one exceeds TLC's 10^6 set limit)
+        fams.append(("list", dict(PLen=1, LLen=2, PAlpha={97, 44, 59, 58, 92, 94})))
     total = 0
     for fam, k in fams:
         r = ctx.mc("MC_ContentLine", cfg_text(spec="Spec", constants={
-            "PAlpha": PALPHA, "VAlpha": {97}, "VLen": 1, "Family": fam, **k},
+            "PAlpha": PALPHA, "VAlpha": {97}, "VLen": 1, "Family": fam, **k},   # a family may narrow PAlpha
             invariants=["InvNoLfOnWire", "InvKF08", "Vec"]), workers=4 if ctx.quick else 12, timeout=3000)
         total += len(r.prints)
         for v in r.prints:
